@@ -136,10 +136,16 @@ def run_case(case, acc):
         exp = None
     else:
         raise ValueError(fam)
-    sink, ctx, store = harness.run_api(spec, items, track_states=True)
-    acc.evals += 1
-    acc.events += len(items) + 1
-    acc.traces += 1
+    twice = len(items) <= 4
+    sink, ctx, store = harness.run_api(spec, items, track_states=True, twice=twice)
+    acc.evals += 2 if twice else 1
+    acc.events += (len(items) + 1) * (2 if twice else 1)
+    acc.traces += 2 if twice else 1
+    if twice:
+        acc.count('second_subscriptions')
+        d = harness.second_problem(sink)
+        if d:
+            out.append(viol(fam, 'second-subscription-differs', dict(d, spec=spec, items=items)))
     m = harness.model_all(spec, items)
     if exp is not None and m != exp:
         raise AssertionError('refmodel disagrees with groupby definition')
